@@ -684,7 +684,78 @@ def check_C13(chk):
                         'TSV has no independent reader here; its encoding is decided by the TLA+ encoder alone']
 
 
-CHECKS = {'C07': check_C07, 'C13': check_C13, 'C12': check_C12, 'C17': check_C17, 'C18': check_C18, 'C15': check_C15, 'C09': check_C09, 'C08': check_C08, 'C11': check_C11, 'C10': check_C10, 'C01': check_C01, 'C02': check_C02, 'C03': check_C03}
+def time_cfg(suite, size):
+    return f'SPECIFICATION Spec\nCONSTANTS\n  Suite = "{suite}"\n  Size = {size}\nINVARIANT TypeOK\nCHECK_DEADLOCK FALSE\n'
+
+
+def check_C20(chk):
+    import subprocess, datetime
+    q = chk.tier == 'quick'
+    chk.rule = ('calendar: TLC walks the successor relation on civil dates (month lengths + 4/100/400 rule) through every day of the years 1770..2170 (quick; one full 400-year cycle) / '
+                '-9999..9999 (thorough) and checks in every state that the closed forms DaysFromCivil / CivilFromDays agree, that years meet, that yearday / weekday laws hold and that '
+                'splitting and joining Unix times are inverse. epoch: for every Unix time of the edge set (20/44 years x 6-7 dates x 2/5 times of day, +-2^31, +-2^53, +-2^63, 2^64/10^6, '
+                'range limits, with neighbours) gmtime = the specified array, gmtime|mktime, todate|fromdate, strftime(F)|strptime(F)|mktime for three complete formats return the '
+                'original, todate = the specified text; beyond years -9999..9999 everything fails; in years +-9999 right or rejected. mktime: arrays with every field at edge values '
+                '(one or two at a time), malformed arrays, non-numeric / non-finite times. iso: texts with nine offsets, malformed texts rejected. frac: fractional times with up to six '
+                'digits before and after 1970: to the microsecond. traces: seeded random Unix times run through the real gmtime/todate/mktime, each run accepted or rejected by TLC '
+                '(Trace_Time) against JaqTime, and compared with Python`s datetime where it applies.')
+    yrs = (200, 200) if q else (8029, 11969)
+    res = vlib.run_tlc('MC_Calendar', f'SPECIFICATION Spec\nCONSTANTS\n  YearsFwd = {yrs[0]}\n  YearsBwd = {yrs[1]}\n'
+                       'INVARIANTS Valid ClosedFormAgrees YearsMeet PrevInverse YearDayLaw WeekDayLaw SplitJoin\nCHECK_DEADLOCK FALSE\n',
+                       'C20-calendar', workers=12, timeout=7200)
+    chk.add_tlc(res)
+    for inv in res['invariant_violated']:
+        chk.violation(f'spec:calendar:{inv}', f'TLC: invariant {inv} of MC_Calendar violated (see {res["out"]})', {'tlc_out': res['out']})
+    if not res['completed']:
+        raise ToolError('calendar walk did not complete')
+    chk.extra['calendar'] = {'days': res['distinct'], 'years': f'{1970 - yrs[1]}..{1970 + yrs[0]}'}
+    size = 1 if q else 2
+    for suite in ('epoch', 'mktime', 'iso', 'frac'):
+        run_suite(chk, suite, 'MC_Time', time_cfg(suite, size))
+    # implementation -> specification: random Unix times
+    vlib.build_jaq()
+    rng = random.Random(chk.seed)
+    n = 1500 if q else 20000
+    lo, hi = -377673580800, 253370764799      # years -9998..9998
+    eps = [rng.randint(lo, hi) for _ in range(n // 2)] + [rng.randint(-2**32, 2**33) for _ in range(n // 4)] + \
+          [d * 86400 + rng.choice([-1, 0, 1]) for d in (rng.randint(lo // 86400 + 1, hi // 86400 - 1) for _ in range(n // 4))]
+    p = subprocess.run([vlib.JAQ, '-c', '[gmtime, (todate | explode), (gmtime | mktime)]'], input='\n'.join(map(str, eps)).encode(), stdout=subprocess.PIPE, stderr=subprocess.PIPE)
+    outs = p.stdout.decode().split('\n')[:-1]
+    if p.returncode != 0 or len(outs) != len(eps):
+        bad = eps[len(outs)] if len(outs) < len(eps) else None
+        chk.violation(f'random:{bad}', f'a time of a year in -9998..9998 was rejected: {bad}: {p.stderr.decode()[:200]}', {'epoch': bad})
+        eps = eps[:len(outs)]
+    tr = os.path.join(W, 'trace-C20.ndjson')
+    with open(tr, 'w') as f:
+        for e, o in zip(eps, outs):
+            gm, iso, mk = json.loads(o)
+            f.write(json.dumps({'neg': e < 0, 'd': [int(c) for c in str(abs(e))] if e else [], 'gm': gm, 'iso': iso, 'mkneg': mk < 0, 'mk': [int(c) for c in str(abs(mk))] if mk else []}) + '\n')
+            # second opinion
+            if 1 <= gm[0] <= 9999:
+                dt = datetime.datetime(1970, 1, 1) + datetime.timedelta(seconds=e)
+                want = [dt.year, dt.month - 1, dt.day, dt.hour, dt.minute, dt.second, (dt.weekday() + 1) % 7, dt.timetuple().tm_yday - 1]
+                if want != gm:
+                    chk.violation(f'python:{e}', f'{e} | gmtime = {gm}; Python datetime says {want}', {'epoch': e})
+    cfgt = 'SPECIFICATION Spec\nINVARIANT Report\nCHECK_DEADLOCK FALSE\n'
+    res = vlib.run_tlc('Trace_Time', cfgt, 'C20-trace', workers=1, timeout=3000, env_extra={'TRACE': tr}, xss='1g', heap='3g')
+    chk.add_tlc(res)
+    result = list(vlib.tuple_lines(res['out'], 'RESULT'))
+    if not result:
+        raise ToolError(f'trace spec did not consume the trace: {res["out"]}')
+    for l in vlib.tagged_lines(res['out'], 'REJECTED'):
+        rec = json.loads(l)
+        e = int(''.join(map(str, rec['rec']['d'])) or '0') * (-1 if rec['rec']['neg'] else 1)
+        chk.violation(f'trace:{e}', f'real run rejected by JaqTime: {e} | gmtime, todate, (gmtime|mktime) = {json.dumps(rec["rec"])[:300]}', rec)
+    chk.traces += len(eps)
+    chk.evaluations += len(eps)
+    chk.extra['random_epochs'] = len(eps)
+    chk.assumptions += ['local time zones (localtime, strflocaltime, %Z/%Q) are outside the specification',
+                        'strftime/strptime directives beyond the three complete formats and %F %T%.f are not modelled',
+                        'fractional times: decimal literals with at most six digits and |t| < 2^51 microseconds (exact to the microsecond in a double)',
+                        'leap second spellings (:60), offsets beyond +-23:59 and lenient ISO forms (lower case, space, basic format) are left open']
+
+
+CHECKS = {'C20': check_C20, 'C07': check_C07, 'C13': check_C13, 'C12': check_C12, 'C17': check_C17, 'C18': check_C18, 'C15': check_C15, 'C09': check_C09, 'C08': check_C08, 'C11': check_C11, 'C10': check_C10, 'C01': check_C01, 'C02': check_C02, 'C03': check_C03}
 
 
 def main():
